@@ -8,7 +8,7 @@ import os, re
 from vlib.engine import Prop, Failure
 from props import msagen as G
 
-MODELLED = ["afa"]                         # formats whose reader exists in the Lean model (text + digital, declared format)
+MODELLED = ["afa", "a2m", "clustal", "clustallike", "psiblast"]                         # formats whose reader exists in the Lean model (text + digital, declared format)
 MODELLED_ABC = ["text", "amino", "dna", "rna"]
 ALL_FORMATS = G.FORMATS
 UNMODELLED = [f for f in ALL_FORMATS if f not in MODELLED] + ["auto(format autodetection)", "guess(alphabet autodetection)"]
@@ -16,6 +16,7 @@ UNMODELLED = [f for f in ALL_FORMATS if f not in MODELLED] + ["auto(format autod
 STABLE_ANCHOR_KEY = "C01:selex-stream:stable-anchor-uaf"
 LEAK_KEY = None
 NUL_ANNOTATION_KEY = "C01:annotation:embedded-nul"
+GS_AFTER_BLOCK_KEY = "C01:stockholm:gs-after-last-block"
 
 OK_OPEN = {"ok", "enoformat", "enoalphabet"}
 OK_READ = {"ok", "eof", "eformat"}
@@ -35,7 +36,12 @@ class C01(Prop):
     harness = "h_msafile.c"
     theorems = ["EaselModel.Props.C01." + t for t in (
         "afaConfigs_valid", "afa_total", "afa_no_fault", "afa_eformat_has_message", "afa_ok_wellformed", "afa_read_all_total",
-        "lines_partition", "strmapcat_length", "dsqcat_codes_valid")] + ["EaselModel.Msafile.afaRead_good", "EaselModel.Msafile.runLines_inv"]
+        "lines_partition", "strmapcat_length", "dsqcat_codes_valid",
+        "a2mConfigs_valid", "a2m_total", "a2m_no_fault", "a2m_eformat_has_message", "a2m_ok_wellformed", "a2m_read_all_total",
+        "clustalConfigs_valid", "clustal_total", "clustal_no_fault", "clustal_ok_wellformed",
+        "psiblastConfigs_valid", "psiblast_total", "psiblast_no_fault", "psiblast_ok_wellformed")] + [
+        "EaselModel.Msafile.afaRead_good", "EaselModel.Msafile.a2mRead_good", "EaselModel.Msafile.clustalRead_good",
+        "EaselModel.Msafile.psiblastRead_good", "EaselModel.Msafile.runLines_inv"]
     claimed = True
     technique = ("Lean 4 proof (totality, fault-freedom and well-formedness of an executable line-by-line model of the alignment readers, bounds-checked "
                  "auxiliary arrays) + exact differential correspondence of the model with the ASan/UBSan/LSan-built readers + property monitors on all ten formats")
@@ -54,7 +60,7 @@ class C01(Prop):
     diverge_is_violation = False
     quick_budget_s = 75
     thorough_budget_s = 900
-    trusted_base = ["hand model of esl_msafile_afa.c (+ easel.c esl_strmapcat, esl_alphabet.c esl_abc_dsqcat, esl_mem.c esl_memtok/esl_memspn, esl_msa.c setters) "
+    trusted_base = ["hand model of esl_msafile_afa.c, esl_msafile_a2m.c (incl. a2m_padding_*), esl_msafile_clustal.c, esl_msafile_psiblast.c readers (+ easel.c esl_strmapcat, esl_alphabet.c esl_abc_dsqcat, esl_mem.c esl_memtok/esl_memspn, esl_msa.c setters) "
                     "tied by exact differential run (h_msafile.c, ASan+UBSan+LSan build of the working tree)",
                     "abstract line reader (split at LF, one CR stripped before LF): ESL_BUFFER's refinement to it is property C05, assumed here and re-checked "
                     "by running every input through memory, file, slurped-file, mmap and small-page stream sources and demanding identical results",
@@ -101,6 +107,9 @@ class C01(Prop):
         add("selex-only-cs", b"#=CS <<>>\n", "selex"); add("selex-cr", b"\r", "selex", "amino"); add("selex-rf-then-block", b"#=RF x\n\nseq1 ACGT\n", "selex")
         add("nul-in-selex-cs", b"#=CS xx\x00xx\nseq1 ACDEF\nseq2 ACDEF\n", "selex")
         add("nul-in-stockholm-gc", b"# STOCKHOLM 1.0\nseq1 ACDEF\n#=GC SS_cons xx\x00xx\n//\n", "stockholm")
+        add("sto-gs-after-last-block", b"# STOCKHOLM 1.0\nseq1 ACDEF\n\n#=GS seq2 DE foo\n//\n", "stockholm")
+        add("sto-gs-unseen-name-before", b"# STOCKHOLM 1.0\n#=GS seq2 WT 1.0\nseq1 ACGT\n//\n", "stockholm", "dna")
+        add("sto-gs-unseen-name-inside", b"# STOCKHOLM 1.0\nseq1 ACDEF\n#=GS seq2 AC foo\n//\n", "pfam")
         add("empty", b"", "auto", "guess"); add("empty-afa", b"", "afa", "text"); add("nul", b"\x00", "auto")
         return c
 
@@ -173,6 +182,10 @@ class C01(Prop):
             data, _ = G.valid_file(rng, fmt, small=small)
             if rng.random() < 0.55: data = G.mutate(rng, data, allfiles)
             emit("gen", data, fmt)
+        # 3b. block-structure anomalies (Stockholm / SELEX per-block bookkeeping)
+        for i in range(240 if quick else 5000):
+            f = ("stockholm", "selex", "stockholm")[i % 3]
+            emit("blk", G.block_anomaly(rng, f), f if rng.random() < 0.8 else ("pfam" if f == "stockholm" else f))
         # 4. raw bytes
         for _ in range(n_raw):
             emit("raw", G.raw_bytes(rng), rng.choice(ALL_FORMATS + [None]))
@@ -247,6 +260,10 @@ class C01(Prop):
             except ValueError: data = b""
             if any(b"\x00" in ln and ln.lstrip(b" \t").startswith(b"#=") for ln in data.split(b"\n")):
                 return NUL_ANNOTATION_KEY
+        if tok.startswith(("chk=norow", "val=fail")) and (" fmt=stockholm " in line + " " or " fmt=pfam " in line + " "):
+            try: data = bytes.fromhex(kv.get("hex", "").replace("-", ""))
+            except ValueError: data = b""
+            if b"#=GS" in data: return GS_AFTER_BLOCK_KEY
         return None
 
     def extra_evidence(self, ctx):
